@@ -53,7 +53,8 @@ def check(prog, rep, tier):
     for f in own_methods(prog, CLS):
         if f.prop or f.src_name == "__init__":
             continue
-        ps = paths(prog, CLS, f)
+        # the item store may delegate to the guarded single-bit writers: look through them so that their accesses (and guards) are seen
+        ps = paths(prog, CLS, f, force_inline=("set_bit", "clear_bit") if f.src_name == "__setitem__" else ())
         rep.analysed(f, CLS, len(ps))
         accesses = []  # (path, kind, index, value, conds, loc)
         for p in ps:
@@ -170,7 +171,8 @@ def check(prog, rep, tier):
                     probe = norm(("bin", "&", rd, mask))
                     v = strip_epochs(value)
                     good = [("phi", ("cmp", "==", probe, C(0)), C(0), C(1)), ("phi", ("cmp", "!=", probe, C(0)), C(1), C(0)),
-                            ("cmp", "!=", probe, C(0))]
+                            ("cmp", "!=", probe, C(0)),
+                            norm(("bin", "&", ("bin", ">>", rd, ("bin", "%", ip, C(8))), C(1)))]  # (old >> (idx%8)) & 1: the same bit
                     if v in good:
                         rep.ok("C20.addressing", f"{CLS}.{f.src_name}: read returns (old&m)!=0")
                     else:
@@ -205,6 +207,11 @@ def check(prog, rep, tier):
                 ok = i[0] == "it" and strip_epochs(i[2]) == ("call", ("g", "range"), (L,), ())
                 if f.src_name == "clear":
                     ok = ok and kind == "store" and value == C(0)
+                    if i == ("slc", C(None), C(None), C(None)) and kind == "store":
+                        # self._bitarray[:] = array('B', [0]) * size_bytes : one block store of zeros over the whole allocation
+                        v = strip_epochs(value)
+                        ok = v[0] == "nary" and v[1] == "*" and len(v[2]) == 2 and L in v[2] and \
+                            any(x[0] == "newb" and x[1] == "array" and len(x[3]) == 2 and x[3][0] == C("B") and x[3][1] == ("lst", (C(0),)) for x in v[2])
                 if ok:
                     rep.ok("C20.full-range", f"{CLS}.{f.src_name}: {kind} over range(size_bytes)")
                 else:
@@ -233,6 +240,15 @@ def check(prog, rep, tier):
         good = False
         for p in ps:
             for e in p.events:
+                if e.kind == "call" and e.name == "map" and len(e.args) == 2 and e.args[0][0] == "bm" and e.args[0][1] == SELF \
+                        and e.args[0][2] == "check_bit":
+                    # map(self.check_bit, <domain>): the guarded reader applied to every element of the domain
+                    if strip_epochs(e.args[1]) == ("call", ("g", "range"), (size_f,), ()):
+                        good = True
+                    else:
+                        rep.bad("C20.full-range", f"{CLS}.{name}", f"map(check_bit, {nshow(e.args[1])})",
+                                f"{name} reads bits {nshow(e.args[1])}, not every element of range(size)", e.where())
+                        good = None
                 if e.kind == "call" and e.name == "check_bit" and e.args:
                     a = strip_epochs(e.args[0])
                     if a[0] == "it" and strip_epochs(a[2]) == ("call", ("g", "range"), (size_f,), ()):
